@@ -34,7 +34,7 @@ type fdef struct {
 
 func isRefBuiltin(name string, arity int) bool {
 	switch fmt.Sprintf("%s/%d", name, arity) {
-	case "debug/0", "stderr/0", "input_filename/0":
+	case "debug/0", "debug/1", "stderr/0", "input_filename/0":
 		return true
 	}
 	call := name
